@@ -221,6 +221,10 @@ class _InvWrapperBase(FnSpec):
     trace = True
     key_var = "instance"
 
+    def static_checks(self, fnode):
+        from .wrapper import inprogress_is_a_contextvar
+        return inprogress_is_a_contextvar()
+
     def common_requires(self, c):
         st, a = c.pre, c.a
         b0 = st.get("attr:ctx_binding", INPROG)
